@@ -695,6 +695,7 @@ def _canon(M, v, seen=None):
 # two spellings of a type keyword, ...  (template, selector index) -> groups of alternative texts that may parse alike
 SAME_MEANING = {
     ('literal_init', 0): [['1', '+1'], ['TRUE', 'BOOL#1']],
+    ('enumeration_values', 0): [],
 }
 DISTINCT_TEMPLATES = {
     'sfc_action_qualifiers': ['FUNCTION_BLOCK fb\nVAR\n  done : BOOL;\n  tv : TIME;\nEND_VAR\nINITIAL_STEP Start:\nEND_STEP\nSTEP Work:\n  act(', ('alt', ['N', 'R', 'S', 'P', 'L', 'D', 'SD, T#1s', 'DS, T#1s', 'SL, T#1s', 'P1, T#1s', 'P0, T#1s', 'SD, T#2s', 'SD, tv', 'DS, tv', 'SL, tv', 'N, done', 'DS, T#1s, done', 'SD, T#1s, done']),
@@ -712,6 +713,16 @@ DISTINCT_TEMPLATES = {
                                                                     'BYTE := BYTE#1', 'WORD := WORD#1', 'BYTE := BYTE#16#FF']), ';\nEND_VAR\nEND_FUNCTION_BLOCK\n'],
     'located_and_access': ['PROGRAM p\nVAR\n  x ', ('alt', ['AT %IX1', 'AT %IX2', 'AT %QX1', 'AT %MX1', 'AT %IW1', 'AT %IB1', 'AT %ID1', 'AT %IL1', 'AT %IX1.2', 'AT %IX1.3', 'AT %I1', 'AT %I*']), ' : BOOL;\nEND_VAR\n',
                            ('opt', 'VAR_ACCESS\n  ac : r.p.x : INT READ_WRITE;\nEND_VAR\n'), ('opt', 'VAR_ACCESS\n  ac : r.p.x : INT READ_ONLY;\nEND_VAR\n'), 'END_PROGRAM\n'],
+    'array_initial_values': ['FUNCTION_BLOCK fb\nVAR\n  v : ARRAY[1..4] OF INT := [', ('alt', ['1, 2', '2, 1', '2(0)', '3(0)', '2(1)', '1, 2(0)', '2(0), 1', '1', '1, 2, 3']), '];\nEND_VAR\nEND_FUNCTION_BLOCK\n'],
+    'structure_initialisers': ['FUNCTION_BLOCK fb\nVAR\n  v : sty := (', ('alt', ['a := 1', 'a := 2', 'b := 1', 'a := 1, b := 2', 'a := 1, b := 3', 'a := (c := 1)', 'a := (c := 2)', 'a := red', 'a := TRUE']), ');\nEND_VAR\nEND_FUNCTION_BLOCK\n'],
+    'enumeration_values': ['TYPE\n  c : (red, green);\nEND_TYPE\nFUNCTION_BLOCK fb\nVAR\n  v : c := ', ('alt', ['red', 'green', 'c#red', 'c#green', 'd#red']), ';\n  w : (', ('alt', ['p, q', 'q, p', 'p', 'p, q, r']), ')', ('alt', ['', ' := p']), ';\nEND_VAR\nEND_FUNCTION_BLOCK\n'],
+    'sfc_transitions': ['FUNCTION_BLOCK fb\nVAR\n  done : BOOL;\nEND_VAR\nINITIAL_STEP Start:\nEND_STEP\nSTEP Work:\nEND_STEP\nSTEP Done:\nEND_STEP\nTRANSITION ', ('alt', ['FROM Start TO Work', 'FROM Work TO Start', 'FROM (Start, Work) TO Done', 'FROM (Work, Start) TO Done', 'FROM Start TO (Work, Done)',
+                         'tr1 FROM Start TO Work', 'tr2 FROM Start TO Work', '(PRIORITY := 1) FROM Start TO Work', '(PRIORITY := 2) FROM Start TO Work', 'tr1 (PRIORITY := 1) FROM Start TO Work']), '\n  := ', ('alt', ['done', 'NOT done', 'TRUE']), ';\nEND_TRANSITION\nEND_FUNCTION_BLOCK\n'],
+    'case_selectors': ['FUNCTION_BLOCK fb\nVAR\n  x : INT;\n  y : INT;\nEND_VAR\n  CASE x OF\n    ', ('alt', ['1', '2', '1, 2', '2, 1', '1..2', '1..3', '2..3', '1, 3..5', '1..2, 5', '-1', '-1..1']), ':\n      y := 1;\n', ('alt', ['', '    7:\n      y := 2;\n', '    7:\n      y := 3;\n', '    8:\n      y := 2;\n']), ('alt', ['', '  ELSE\n    y := 4;\n', '  ELSE\n    y := 5;\n']), '  END_CASE;\nEND_FUNCTION_BLOCK\n'],
+    'access_and_program_storage': ['PROGRAM p\nVAR\n  t : INT;\nEND_VAR\nVAR_ACCESS\n  ', ('alt', ['ac : r.p.x : INT READ_WRITE', 'ac : r.p.x : INT READ_ONLY', 'ac : r.p.x : INT', 'ad : r.p.x : INT READ_WRITE', 'ac : r.p.y : INT READ_WRITE', 'ac : r.q.x : INT READ_WRITE', 'ac : r.p.x : DINT READ_WRITE']), ';\nEND_VAR\n  t := 1;\nEND_PROGRAM\n'],
+    'for_and_loops': ['FUNCTION_BLOCK fb\nVAR\n  i : INT;\n  k : INT;\n  b : BOOL;\nEND_VAR\n  ', ('alt', ['FOR i := 1 TO 10 DO\n    k := 1;\n  END_FOR', 'FOR i := 2 TO 10 DO\n    k := 1;\n  END_FOR', 'FOR i := 1 TO 11 DO\n    k := 1;\n  END_FOR', 'FOR i := 1 TO 10 BY 2 DO\n    k := 1;\n  END_FOR', 'FOR i := 1 TO 10 BY 3 DO\n    k := 1;\n  END_FOR',
+                       'FOR k := 1 TO 10 DO\n    k := 1;\n  END_FOR', 'WHILE b DO\n    k := 1;\n  END_WHILE', 'WHILE NOT b DO\n    k := 1;\n  END_WHILE', 'REPEAT\n    k := 1;\n  UNTIL b\n  END_REPEAT', 'REPEAT\n    k := 1;\n  UNTIL NOT b\n  END_REPEAT',
+                       'IF b THEN\n    k := 1;\n  ELSIF i > 1 THEN\n    k := 2;\n  ELSIF i > 2 THEN\n    k := 3;\n  END_IF', 'IF b THEN\n    k := 1;\n  ELSIF i > 2 THEN\n    k := 3;\n  ELSIF i > 1 THEN\n    k := 2;\n  END_IF']), ';\nEND_FUNCTION_BLOCK\n'],
     'configuration_parts': ['CONFIGURATION c\nRESOURCE r ON plc\n  TASK t(', ('alt', ['INTERVAL := T#1s, PRIORITY := 1', 'INTERVAL := T#2s, PRIORITY := 1', 'INTERVAL := T#1s, PRIORITY := 2', 'PRIORITY := 1', 'SINGLE := trig, PRIORITY := 1']), ');\n  PROGRAM ',
                             ('alt', ['', 'RETAIN ', 'NON_RETAIN ']), 'i ', ('alt', ['WITH t ', '']), ': p', ('alt', ['', '(a := b)', '(a := c)', '(a => b)', '(a := b, c => d)']), ';\nEND_RESOURCE\nEND_CONFIGURATION\n'],
 }
@@ -747,6 +758,15 @@ def _k9_templates():
     for k in ('sfc_transition', 'edge_inputs', 'fb_call', 'function_call', 'assignment_expr', 'assignment_target', 'case_statement', 'literal_init', 'configuration_globals', 'string_type', 'subrange_type', 'array_type', 'enum_type', 'struct_type'):
         if k in K10.TEMPLATES: d[k] = K10.TEMPLATES[k]
     return d
+
+WELL_FORMED = ['sfc_transitions', 'statements', 'literal_kinds', 'array_initial_values', 'structure_initialisers', 'enumeration_values', 'case_selectors', 'for_and_loops', 'access_and_program_storage', 'located_and_access']
+
+def _replay_must_parse(src):
+    def rp(ctx):
+        r = ctx.replay({'cmd': 'parse', 'source': src})
+        if 'panic' in r: return True, r
+        return not r.get('ok'), {'source': src[-300:], 'parses': r.get('ok'), 'diag': str(r.get('diag'))[:200]}
+    return rp
 
 @replay_factory('parse_distinct')
 def _replay_parse_distinct(a, b):
@@ -785,7 +805,18 @@ def k9(ctx, kr):
                     role = 'C01/K9/%s/%s=%s' % (n, re.sub(r'[^A-Za-z0-9#.<>=:*+-]+', '_', t1).strip('_')[:20] or 'none', re.sub(r'[^A-Za-z0-9#.<>=:*+-]+', '_', t2).strip('_')[:20] or 'none')
                     if any(f.role == role for f in kr.findings): continue
                     kr.findings.append(Finding(role, 'template %s: the sources that differ only in %r vs %r parse to the same library: what was written is not what the library says' % (n, t1, t2), {'a': s1, 'b': s2}, replay=_replay_parse_distinct(s1, s2)))
-    kr.notes.append('%d pairs of shapes compared' % npairs)
+    # templates whose every shape is a well-formed program of the supported subset: parsing must succeed
+    for n in WELL_FORMED:
+        if n not in T: continue
+        tpl = T[n]; dims = K10._shapes(tpl)
+        import itertools
+        for c in itertools.product(*[range(d) for d in dims]):
+            if c in libs[n]: continue
+            src = K10._tpl_text(tpl, list(c)); lab = TP.shape_label(tpl, c)
+            role = 'C01/K9/%s/rejected/%s' % (n, lab)
+            if sum(1 for f in kr.findings if f.role.startswith('C01/K9/%s/rejected/' % n)) >= 3: break
+            kr.findings.append(Finding(role, 'template %s, shape %s: a well-formed program is rejected by parse_program' % (n, lab), {'source': src}, replay=_replay_must_parse(src)))
+    kr.notes.append('%d pairs of shapes compared; shapes the parser accepts per template: %s' % (npairs, ', '.join('%s %d/%d' % (n, len(libs[n]), __import__('kernels.tplcommon', fromlist=['x']).nshapes(T[n])) for n in T)))
     if len(kr.validate) < 1 and libs.get('statements'):
         ks = sorted(libs['statements'])[:2]
         if len(ks) == 2: kr.validate.append(('parse_distinct', (libs['statements'][ks[0]][1], libs['statements'][ks[1]][1])))
